@@ -337,4 +337,48 @@ def WellTyped (R : String) (isErr : String → Bool) (ret : List DVal) : Prop :=
   ∃ r0 e, ret = [r0, e] ∧ r0.hasType R = true ∧
     (e = .untyped ∨ ∃ t k n p, e = .val t k n p ∧ isErr t = true)
 
+/-! ### When, and from what, a chain is composed
+
+`NewMethod` composes inside the call (`handler: composeMiddleware(method, middleware)`),
+so a Method's chain is a function of the VALUES in the slice at that moment; the
+generated client / publisher / processor constructors call `NewMethod` before they
+return. What the caller — or another constructor appending into the same backing
+array — does to the slice afterwards is not seen by a Method that exists already.
+
+`Life` is a caller-owned backing array (`arr`, length = capacity; the slice passed
+variadically is `arr[:k]`) and the objects constructed so far (one Method each). -/
+
+structure Life (α ρ : Type) where
+  arr : List (Middleware α ρ)
+  k : Nat
+  objs : List (Method α ρ)
+
+inductive LifeStep (α ρ : Type) where
+  /-- a constructor given `arr[:k]...`; `aliasAppend`: it does
+  `middleware = append(middleware, provider.GetMiddleware()...)` on its parameter (generated
+  client / publisher) — which writes `prov` into the caller's spare capacity when it fits -/
+  | construct (f : α → ρ) (aliasAppend : Bool) (prov : List (Middleware α ρ))
+  /-- the caller overwrites an element of its backing array (visible or spare part) -/
+  | write (j : Nat) (m : Middleware α ρ)
+  /-- the caller appends to its slice: `append(arr[:k], m)` -/
+  | push (m : Middleware α ρ)
+  /-- `AddMiddleware` on object `i` -/
+  | add (i : Nat) (m : Middleware α ρ)
+
+def Life.step (s : Life α ρ) : LifeStep α ρ → Life α ρ
+  | .construct f al prov =>
+    { s with
+      arr := if al ∧ s.k + prov.length ≤ s.arr.length then overwrite s.arr s.k prov else s.arr,
+      objs := s.objs ++ [newMethod f (s.arr.take s.k ++ prov)] }
+  | .write j m => { s with arr := s.arr.set j m }
+  | .push m => { s with arr := s.arr.set s.k m }
+  | .add i m => { s with objs := s.objs.modify i (fun o => o.addMiddleware m) }
+
+def Life.run (s : Life α ρ) (steps : List (LifeStep α ρ)) : Life α ρ := steps.foldl Life.step s
+
+/-- `AddMiddleware` steps aimed at object `i`. -/
+def LifeStep.addsTo (i : Nat) : LifeStep α ρ → Bool
+  | .add j _ => j == i
+  | _ => false
+
 end FV.Mw
